@@ -972,10 +972,49 @@ def rule_done(env, shared):
                 for x in range(len(b.blocks)):
                     if not b.blocks[x]["cleanup"] and any(_fill_evidence(fills, f, neg=True) for f in block_facts(ev, ctx, x)):
                         infeasible.add(x)
+            # a monotone flag set on the None path (`exhausted = true; break`): the edges on which it is still found unset
+            # are not on a path from there
+            from guards import monotone_flag
+            flag_inf = {}
+            for l_ in range(len(b.locals)):
+                mf = monotone_flag(b, l_)
+                if mf is None:
+                    continue
+                unset_edges = set()
+                for x in range(len(b.blocks)):
+                    tx = b.blocks[x]["term"]
+                    if b.blocks[x]["cleanup"] or tx["k"] != "switch" or tx["discr"]["k"] not in ("copy", "move") \
+                            or tx["discr"]["place"]["p"]:
+                        continue
+                    dl_ = tx["discr"]["place"]["l"]
+                    # the switch reads the flag itself or a plain copy of it
+                    src = dl_
+                    dd = [d for d in b.defs().get(dl_, []) if not b.blocks[d[0]]["cleanup"]]
+                    if dl_ != l_ and len(dd) == 1 and dd[0][2] == "assign" and dd[0][3]["k"] == "use" \
+                            and dd[0][3]["op"].get("k") in ("copy", "move") and not dd[0][3]["op"]["place"]["p"]:
+                        src = dd[0][3]["op"]["place"]["l"]
+                    if src != l_:
+                        continue
+                    setv = 1 if mf[0] else 0
+                    for v_, tb_ in tx["targets"]:
+                        if v_ != setv:
+                            unset_edges.add(tb_)
+                    if not any(v_ == setv for v_, _t in tx["targets"]):
+                        pass
+                    elif tx["otherwise"] not in [tb_ for v_, tb_ in tx["targets"]] and setv not in [v_ for v_, _t in tx["targets"]]:
+                        pass
+                    if setv in [v_ for v_, _t in tx["targets"]]:
+                        unset_edges.add(tx["otherwise"])
+                flag_inf[l_] = (set(mf[1]), unset_edges)
             for s in first:
                 if s in done_blocks:
                     continue
-                if b.paths_avoiding(s, set(b.exits()), done_blocks | infeasible):
+                extra_inf = set()
+                for l_, (setters, unset_edges) in flag_inf.items():
+                    # every path from s sets the flag before it can reach a test of it
+                    if any(sb_ == s or (b.dominates(s, sb_) and not b.paths_avoiding(s, unset_edges, {sb_})) for sb_ in setters):
+                        extra_inf |= unset_edges
+                if b.paths_avoiding(s, set(b.exits()), done_blocks | infeasible | extra_inf):
                     bad = True
             if bad and not b.is_closure and (b.info or {}).get("container") in ("inherent", "free") \
                     and not (b.info or {}).get("exported"):
